@@ -200,7 +200,30 @@ theorem recoverT_eq (cfg : Cfg) (s : State) (c : Nat) : recoverT Gen.Sem.recover
   unfold recoverT recover statusOf
   cases h : s.cur c <;> simp [firstRow, holdsLits, envFound, Gen.Sem.recover]
 
+theorem statusTbl_eq (s : State) (ls : Bool) (c : Nat) : statusTbl Gen.Sem.status s ls c = some (statusR s ls c) := by
+  unfold statusTbl statusR
+  cases h : s.cur c with
+  | some i => simp [firstRow, holdsLits, envStatus, Gen.Sem.status, execStatus]
+  | none =>
+    cases hs : s.shared c with
+    | none => simp [firstRow, holdsLits, envStatus, Gen.Sem.status, execStatus]
+    | some p =>
+      cases hk : p.kind <;> cases ls <;> cases hh : heldAs s c p.mode <;>
+        simp [hk, hh, firstRow, holdsLits, envStatus, Gen.Sem.status, execStatus]
+
+/-- the shared state cannot be read (`getState` or `st.Get` fails) and there is no table entry: cluster_error -/
+theorem statusTbl_stateErr (s : State) (ls : Bool) (c : Nat) (a b : Bool) (h : s.cur c = none) (hab : (a && b) = false)
+    (hp : ∃ p, s.shared c = some p) :
+    statusTbl Gen.Sem.status s ls c a b = some .clusterError := by
+  obtain ⟨p, hp⟩ := hp
+  unfold statusTbl
+  cases a <;> cases b <;> simp at hab <;> simp [h, hp, firstRow, holdsLits, envStatus, Gen.Sem.status, execStatus]
+
+theorem addError_table (env : Atom → Bool) : firstRow Gen.Sem.addError env = some [.setStatus .clusterError, .retVoid] := by
+  simp [firstRow, holdsLits, Gen.Sem.addError]
+
 theorem tables_known_c :
-    (known Gen.Sem.enqueue && known Gen.Sem.track && known Gen.Sem.untrack && known Gen.Sem.recover) = true := by decide
+    (known Gen.Sem.enqueue && known Gen.Sem.track && known Gen.Sem.untrack && known Gen.Sem.recover &&
+     known Gen.Sem.status && known Gen.Sem.addError) = true := by decide
 
 end CV.C05.T
